@@ -57,7 +57,8 @@ def render_prog(prog: List[dict]) -> str:
         if k == "op":
             lines.append(f"{render_e(s['f'], i)};{render_e(s['j'], i + 1)}")
         elif k == "label":
-            lines.append(f"{s['n']}:")
+            parts = s["n"].split(".")
+            lines.append("".join(f"ns {q} {{\n" for q in parts[:-1]) + f"{parts[-1]}:" + "\n}" * (len(parts) - 1))
         elif k == "wflip":
             if s.get("two"):
                 lines.append(f"wflip {render_e(s['a'], i)}, {render_e(s['v'], i + 1)}")
@@ -93,6 +94,32 @@ def to_json_prog(prog: List[dict]) -> List[dict]:
     return out
 
 
+# label spellings a source may use: every one is an ordinary label to the language (dotted names are declared inside namespaces)
+SPELLINGS = ["_.wflip_area_start_0", "_.wflip_area_start_1", "_.wflip_area_start_2", "a.b.c", "_", "_.x", "stl.startup", "wflip_area_start_0",
+             "x9_.y", "L", "end", "_.wflip_area_start_", "def_", "ns1.rep0"]
+
+
+def respell(prog: List[dict], rng: random.Random) -> List[dict]:
+    """rename some labels of the program (declarations and uses alike) to unusual but legal spellings"""
+    names = sorted({s["n"] for s in prog if s["k"] == "label"})
+    if not names:
+        return prog
+    ren = dict(zip(rng.sample(names, min(len(names), rng.randint(1, 2))), rng.sample(SPELLINGS, 2)))
+
+    def fe(e):
+        return dict(e, n=ren.get(e["n"], e["n"])) if e["b"] == "lbl" else e
+    out = []
+    for s in prog:
+        s = dict(s)
+        if s["k"] == "label":
+            s["n"] = ren.get(s["n"], s["n"])
+        for f in ("f", "j", "a", "v", "r"):
+            if f in s and isinstance(s[f], dict):
+                s[f] = fe(s[f])
+        out.append(s)
+    return out
+
+
 def gen_prog(rng: random.Random, w: int) -> List[dict]:
     dw = 2 * w
     top = 1 << w
@@ -125,7 +152,7 @@ def gen_prog(rng: random.Random, w: int) -> List[dict]:
         elif r < 0.86:
             prog.append({"k": "pad", "n": rng.choice([1, 2, 4, 3, 8])})
         elif r < 0.93:
-            k = rng.choice([2, 2, 4, 6, 1002] + ([1, 3] if bad else []))
+            k = rng.choice([2, 2, 4, 6, 1002, 0] + ([1, 3, -2] if bad else []))
             prog.append({"k": "reserve", "n": k * w})
         else:
             nw = sum(1 for s_ in prog if s_["k"] == "wflip")
@@ -265,6 +292,8 @@ def alphabet(w: int, small: bool) -> List[dict]:
         {"k": "pad", "n": 2},
         {"k": "reserve", "n": dw},
         {"k": "wflip", "a": E("num", o=dw + w), "v": E("num", o=0), "r": E("cur")},
+        {"k": "reserve", "n": 0},
+        {"k": "reserve", "n": -dw},
     ]
     if not small:
         A += [
@@ -301,7 +330,7 @@ def exhaustive(chk: Check, so: str, quick: bool, only_labels: bool):
     jobs = []
     for w, small, maxlen in plans:
         A = alphabet(w, small)
-        root = "---- MODULE MCasm ----\nEXTENDS MC_FJAsm\nAlpha_def == <<" + ",\n  ".join(tla_stmt(s_) for s_ in A) + ">>\n====\n"
+        root = "---- MODULE MCasm ----\nEXTENDS MC_FJAsm, Integers\nAlpha_def == <<" + ",\n  ".join(tla_stmt(s_) for s_ in A) + ">>\n====\n"
         cfg = (f"SPECIFICATION Spec\nCONSTANTS\n  W = {w}\n  MaxLen = {maxlen}\n  Alphabet <- Alpha_def\n"
                "INVARIANT RefAccepted\nINVARIANT MutantRejected\nINVARIANT LayoutSane\nCONSTRAINT Emit\nCHECK_DEADLOCK FALSE\n")
         jobs.append(dict(module="MCasm", cfg_text=cfg, extra_modules={"MCasm": root}, workers=1, heap="4g", timeout=3000))
@@ -349,7 +378,10 @@ def run(chk: Check, replay=None, only_labels: bool = False):
     work = []
     for i in range(ncases):
         w = [8, 16, 32, 64][i % 4]
-        work.append((i, w, (i // 4) % 4, gen_prog(rng, w)))
+        prog = gen_prog(rng, w)
+        if i % 9 == 8:
+            prog = [{"k": "reserve", "n": 0}] + prog          # an empty reservation at address 0
+        work.append((i, w, (i // 4) % 4, respell(prog, rng) if i % 5 == 4 else prog))
     recs = par.pmap(_asm_case, work, so_path=so, procs=16, chunksize=8)
     verdicts = validate(chk, recs, "Trace_FJAsm[generated]")
     chk.traces += len(recs)
